@@ -99,7 +99,8 @@ class C09(Prop):
 
     def cases(self, rng: random.Random, tier: str) -> Iterable[dict]:
         # every dedicated family is visited at least twice per run, whatever the seed; the rest is drawn at random
-        forced = [0.04, 0.11, 0.16, 0.21, 0.245, 0.28, 0.32, 0.35, 0.35, 0.38, 0.41, 0.45] * 2
+        closure_variant = 0
+        forced = [0.04, 0.11, 0.16, 0.21, 0.245, 0.28, 0.32, 0.35, 0.35, 0.35, 0.38, 0.41, 0.45, 0.48] * 2
         while True:
             r = forced.pop() if forced else rng.random()
             if r < 0.08:
@@ -114,7 +115,12 @@ class C09(Prop):
                 # same names in another order need a second graph (one graph cannot hold two producers of a name)
                 prog_a = [{"name": "g0", "nodes": [na], "bound": []}]
                 nb2 = dict(nb, dataOuts=perm, name="na", sameFuncAs=None)
-                yield {"kind": "runs2", "programs": [prog_a, [{"name": "g0", "nodes": [dict(na, dataOuts=perm)], "bound": []}]],
+                second = dict(na, dataOuts=perm)
+                if rng.random() < 0.5:
+                    # the second node is DERIVED from the first node object (with_outputs: a swap / rotation of the names, or fresh
+                    # names) AFTER that object was run against the cache
+                    second = dict(na, dataOuts=perm if rng.random() < 0.5 else [o + "_z" for o in outs], deriveOutputsFrom="na")
+                yield {"kind": "runs2", "programs": [prog_a, [{"name": "g0", "nodes": [second], "bound": []}]],
                        "values": [["x", rng.randint(0, 5)]], "backend": rng.choice(["mem", "lru2", "disk"]), "runner": rng.choice(["sync", "async"])}
                 continue
             if 0.26 <= r < 0.30:
@@ -153,17 +159,27 @@ class C09(Prop):
                 continue
             if 0.34 <= r < 0.37:
                 # two functions made by ONE factory (identical, retrievable source text) that captured different values: different definitions
-                if rng.random() < 0.5:
-                    c1, c2 = rng.sample([[0, None], [1, None], [2, None], ["a", None], [{"t": [1]}, None]], 2)
-                else:
+                closure_variant += 1
+                if closure_variant % 3 == 1:
+                    c1, c2 = rng.sample([[0, None], [1, None], [2, None], ["a", None], [{"t": [1]}, None], [{"plain": 1}, None]], 2)
+                elif closure_variant % 3 == 2:
                     # two captured values whose printed forms CONCATENATE to the same text
                     c1, c2 = rng.choice([([1, 23], [12, 3]), ([10, 1], [1, 1]), ([7, 70], [77, 0])])
                     if rng.random() < 0.5:
                         c1, c2 = c2, c1
+                else:
+                    # captured objects WITHOUT value semantics (default, address-bearing repr): two different objects, two definitions
+                    c1, c2 = [{"plain": 1}, 5], [{"plain": 2}, 5]
                 mk = lambda c: [{"name": "g0", "nodes": [{"name": "na", "kind": "fn", "params": [["x", None]], "dataOuts": ["out"],  # noqa: E731
                                                           "body": {"b": "closure", "t": "made", "c": c[0], "c2": c[1]}, "cache": True}], "bound": []}]
                 yield {"kind": "runs2", "programs": [mk(c1), mk(c2)], "values": [["x", rng.randint(0, 3)]],
                        "backend": rng.choice(["mem", "lru2", "disk"]), "runner": rng.choice(["sync", "async"]), "share": False}
+                continue
+            if 0.47 <= r < 0.50:
+                # an AUTHENTIC disk entry whose value can no longer be reconstructed (its class was renamed / moved / changed between two
+                # releases of the application): a miss, never an exception
+                yield {"kind": "diskghost", "how": rng.choice(["class_gone", "module_gone", "ctor_changed"]), "v": rng.randint(0, 9),
+                       "via": rng.choice(["get", "run"])}
                 continue
             if 0.43 <= r < 0.47:
                 # the definition hash itself: pairs of real functions that differ in exactly one knob (or none)
@@ -305,6 +321,8 @@ class C09(Prop):
             return self._impl_disk(case)
         if case["kind"] == "defhash":
             return self._impl_defhash(case)
+        if case["kind"] == "diskghost":
+            return self._impl_diskghost(case)
         if case["kind"] == "runs2":
             return self._impl_runs2(case)
         tmp = None
@@ -349,6 +367,51 @@ class C09(Prop):
                 ops.append(["get", k])
                 gets.append(vid.get(repr(sorted(op[3].items(), key=lambda kv: kv[0])) if isinstance(op[3], dict) else repr(op[3])) if op[2] else None)
         return {"runs": runs, "ops": ops, "gets": gets, "hits": sum(1 for g in gets if g is not None)}
+
+    # ---------------------------------------------------------------- authentic but unloadable disk entries
+    def _impl_diskghost(self, case: dict) -> Any:
+        import sys
+        import types
+
+        tmp = tempfile.mkdtemp(prefix="hgc09g_")
+        modname = "verif_ghost_mod"
+        mod = types.ModuleType(modname)
+        exec("class Ghost:\n    def __init__(self, n):\n        self.n = n\n    def __eq__(self, o):\n        return type(o) is type(self) and o.n == self.n\n"
+             "    __hash__ = None\n", mod.__dict__)  # noqa: S102 - fixed text
+        mod.Ghost.__module__ = modname
+        sys.modules[modname] = mod
+        out: dict[str, Any] = {"events": []}
+        try:
+            dc = DiskCache(tmp)
+            value = mod.Ghost(case["v"])
+            dc.set("k", value)
+            hit, v = dc.get("k")
+            out["first"] = bool(hit and v == value)
+            # a new release of the application
+            if case["how"] == "class_gone":
+                del mod.Ghost
+            elif case["how"] == "module_gone":
+                del sys.modules[modname]
+            else:
+                exec("class Ghost:\n    def __init__(self, n, extra):\n        self.n = n\n    def __reduce__(self):\n        return (Ghost, (self.n,))\n",  # noqa: S102
+                     mod.__dict__)
+                # the stored pickle was produced by the default protocol (object.__reduce_ex__): make reconstruction fail differently
+                mod.Ghost.__setstate__ = lambda self, st: (_ for _ in ()).throw(TypeError("incompatible state"))
+            try:
+                hit2, v2 = dc.get("k")
+                out["second"] = {"hit": bool(hit2), "raised": None}
+            except Exception as e:  # noqa: BLE001
+                out["second"] = {"hit": False, "raised": type(e).__name__}
+            try:
+                dc.set("k", 5)
+                hit3, v3 = dc.get("k")
+                out["third"] = {"hit": bool(hit3) and v3 == 5, "raised": None}
+            except Exception as e:  # noqa: BLE001
+                out["third"] = {"hit": False, "raised": type(e).__name__}
+        finally:
+            sys.modules.pop(modname, None)
+            shutil.rmtree(tmp, ignore_errors=True)
+        return {"ghost": out, "runs": [], "ops": [], "gets": [], "hits": 1}
 
     # ---------------------------------------------------------------- the definition hash
     @staticmethod
@@ -484,6 +547,18 @@ class C09(Prop):
 
     # ---------------------------------------------------------------- oracle
     def oracle(self, case: dict, obs: Any) -> str | None:
+        if case["kind"] == "diskghost":
+            g = obs["ghost"]
+            if not g["first"]:
+                return "an intact disk entry holding a user-class instance was not served"
+            if g["second"]["raised"]:
+                return (f"an authentic disk entry whose value can no longer be reconstructed ({case['how']}) made DiskCache.get raise "
+                        f"{g['second']['raised']} instead of behaving as a miss")
+            if g["second"]["hit"] and case["how"] != "ctor_changed":
+                return f"an entry whose class is gone ({case['how']}) was served as a hit"
+            if g["third"]["raised"] or not g["third"]["hit"]:
+                return f"after the unusable entry the key cannot be used any more: {g['third']}"
+            return None
         if case["kind"] == "defhash":
             def visible(d: dict) -> Any:
                 return json.dumps([d["source"] if d["source"] is not None else d["code"], d["defaults"], d["kwdefaults"], d["cells"]], sort_keys=True)
@@ -562,6 +637,8 @@ class C09(Prop):
             if ig != m["gets"]:
                 return f"disk scenario: impl={ig} model={m['gets']}"
             return None
+        if case["kind"] == "diskghost":
+            return None
         if case["kind"] == "defhash":
             m = driver.ask({"op": "defhash", "pairs": [[o["a"], o["b"]] for o in i["pairs"]]})
             if "same" not in m:
@@ -590,6 +667,8 @@ class C09(Prop):
         if case["kind"] == "disk":
             return {"kind": "disk", "tampers": sum(1 for s in case["steps"] if s["t"] in TAMPERS), "torn": sum(1 for s in case["steps"] if s["t"] == "crashSet"),
                     "hits": sum(1 for g in obs["gets"] if g["hit"] != {"miss": 1})}
+        if case["kind"] == "diskghost":
+            return {"kind": "diskghost", "how": case["how"]}
         if case["kind"] == "defhash":
             return {"kind": "defhash", "pairs": len(case["pairs"]), "knobs": "+".join(sorted({k for _, _, k in case["pairs"]}))[:60],
                     "equal_hashes": sum(1 for o in obs["pairs"] if o["same"])}
